@@ -510,6 +510,14 @@ def _forget_by_scan(ck, R, cm, ff, sw, sep):
                 todo, depth = nxt, depth + 1
     # both refs and cache are filtered
     need = {cm.map} | ({cm.refs} if cm.refs else set())
+    if slots and not need <= slots:
+        # a table that is not scanned may be selected from a per-function index instead (scan the weak table, index the
+        # resident map): then that index is held to the index clauses for the tables it stands for
+        try:
+            _forget_by_index(ck, R, cm, ff, only=sorted(need - slots))
+            slots |= need
+        except AnalysisError:
+            pass
     ck.ob(R, ff.key(None, "slots"), need <= slots, "forget_function filters %s" % sorted(need) if need <= slots else
           "forget_function does not filter %s" % sorted(need - slots), ff.where())
 
@@ -578,7 +586,7 @@ def _site_covered(ck, cm, m, site, key, slot, kinds, absent_ok, depth=0):
     return True, None
 
 
-def _forget_by_index(ck, R, cm, ff):
+def _forget_by_index(ck, R, cm, ff, only=None):
     """forget_function selects its keys from a per-function index (a dict slot of the cache other than the resident map)
     instead of scanning.  The selection is then only as complete as the index: at all times the index holds every key of
     the resident map AND of the weak-reference table.  Decided as two clauses over every method of the cache: (1) wherever
@@ -605,7 +613,7 @@ def _forget_by_index(ck, R, cm, ff):
     okq = bool(own) and (own[0] + ".qualified_name") in sel
     ck.ob(R, ff.key(None, "index-keyed-by-qualified-name"), okq, "the index is looked up by fn_reference.qualified_name" if okq else
           "the per-function index is not looked up by the function's qualified name", ff.where())
-    slots = [cm.map] + ([cm.refs] if cm.refs else [])
+    slots = list(only) if only else [cm.map] + ([cm.refs] if cm.refs else [])
     for name, m in cm.cls.methods.items():
         if name == "__init__":
             continue
